@@ -52,7 +52,7 @@ def corpus_cases(ctx):
         for fn in sorted(os.listdir(bdir)):
             if fn.endswith('.css'):
                 b = open(os.path.join(bdir, fn), 'rb').read()
-                for c2 in (False, True):
+                for c2 in ((False,) if ctx.quick() else (False, True)):
                     out.append(mk(b, False, c2, 'bench:' + fn))
     cdir = os.path.join(vlib.REPO, 'tests', 'css', 'corpus')
     if os.path.isdir(cdir):
@@ -515,7 +515,7 @@ def gen_cases(ctx):
     cases = []
     per_fam = {}
     excl = {}
-    cap = 6000 if ctx.quick() else 20000
+    cap = 4000 if ctx.quick() else 20000
     nok = {}
     for st in states:
         if st['ok']:
